@@ -673,11 +673,13 @@ type enumC05 struct {
 	// AppLate: the application's write after the restart comes only after the restarted loop has run for 12 / 30 yields
 	// (the peer's snapshot is merged by then, the own one is still being waited for), not before its first step
 	AppLate int `json:"app_late,omitempty"`
+	// Odd: the instances' configured names are changed by sanitising (the names in the bucket differ from the configured ones)
+	Odd bool `json:"odd,omitempty"`
 }
 
 func TestC05Enum(t *testing.T) {
 	vcore.RunEnum(t, vcore.Config{Property: "C05", Inflight: true,
-		Rule: "fault enumeration: instance A publishes key k (only copy), a peer B publishes k2; A is crashed at EVERY yield point (14) while it uploads a second change, restarted with the LMDB {kept, emptied}, with its own newest snapshot {downloadable, failing to load twice, followed by an undecodable newer blob, failing to load eight times while every other listing fails, only the instance's own snapshots failing to load forty times, or reported as not existing twice}; for emptied restarts also a second kill with the LMDB kept, at the first yield point or ten yields later (third life: an LMDB with data but not the data of its own snapshot); the application writes k' right after the restart; for emptied restarts with a failing own download also with remove_old_instances_interval = 1 ns (every snapshot, the own one included, counts as stale at restart); for emptied restarts with a failing own download also with the application's write only 12 / 30 yields after the restart (the peer's snapshot merged, the own one still awaited); for emptied restarts additionally with storage_force_snapshot_interval = 1 ns (a periodic snapshot always overdue) x {the application writes k', writes nothing}; both loops run on; invariants as in TestC05Bucket after every bucket mutation; non-trivial = emptied restart"},
+		Rule: "fault enumeration: instance A publishes key k (only copy), a peer B publishes k2; A is crashed at EVERY yield point (14) while it uploads a second change, restarted with the LMDB {kept, emptied}, with its own newest snapshot {downloadable, failing to load twice, followed by an undecodable newer blob, failing to load eight times while every other listing fails, only the instance's own snapshots failing to load forty times, or reported as not existing twice}; for emptied restarts also a second kill with the LMDB kept, at the first yield point or ten yields later (third life: an LMDB with data but not the data of its own snapshot); the application writes k' right after the restart; for emptied restarts with a failing own download also with remove_old_instances_interval = 1 ns (every snapshot, the own one included, counts as stale at restart); for emptied restarts with a failing own download also with instance names that sanitising changes, and with the application's write only 12 / 30 yields after the restart (the peer's snapshot merged, the own one still awaited); for emptied restarts additionally with storage_force_snapshot_interval = 1 ns (a periodic snapshot always overdue) x {the application writes k', writes nothing}; both loops run on; invariants as in TestC05Bucket after every bucket mutation; non-trivial = emptied restart"},
 		func(yield func(enumC05) bool) {
 			for _, native := range []bool{true, false} {
 				for _, p := range loopYieldPoints {
@@ -698,6 +700,11 @@ func TestC05Enum(t *testing.T) {
 							}
 							if !keep && (own == "fail2" || own == "own-slow") {
 								if !yield(enumC05{Native: native, Point: p, Keep: keep, Own: own, AgedOut: true}) {
+									return
+								}
+							}
+							if !keep && (own == "fail2" || own == "own-slow" || own == "own-notexist") {
+								if !yield(enumC05{Native: native, Point: p, Keep: keep, Own: own, Odd: true}) {
 									return
 								}
 							}
@@ -728,6 +735,7 @@ func TestC05Enum(t *testing.T) {
 			if e.AgedOut {
 				c.RemoveOld = 1
 			}
+			c.OddNames = e.Odd
 			put := func(k int, v string) []SChange { return []SChange{{DBI: 0, Key: k, Op: "put", Val: model.Bytes(v)}} }
 			c.Ops = []C05Op{
 				{Kind: "app", Inst: 0, Changes: put(0, "k-only-on-A")},
